@@ -149,6 +149,8 @@ def analyse_class(repo, rep, class_q, floors=None, prefix=''):
   (memo, writers, pairs, cached) or None for classes that may have no memo field."""
   cls = repo.cls(class_q)
   cf = classfx.ClassFields(cls)
+  # helpers whose every use was inlined into the anchors are examined there
+  cf.funcs = {q_: f_ for q_, f_ in cf.funcs.items() if not repo.inlined_away(f_)}
   for f in cf.funcs.values():
     rep.fn(f)
   memo = _memo_fields(cf)
